@@ -18,13 +18,14 @@ func init() {
 		ID:    "C19",
 		Level: "exploration",
 		Rule: "cases: seeded histories of 1-30 operations from {Append, Prepend, Replace, Clear, All, caller overwrites an earlier argument slice in place, caller appends into the " +
-			"spare capacity of an earlier argument, caller writes through the slice returned by All, Append/Prepend/Replace whose argument is a sub-slice of All()} on one dst.Decorations; arguments are sub-slices of a shared arena with " +
+			"spare capacity of an earlier argument, caller writes through the slice returned by All, Append/Prepend/Replace whose argument is a sub-slice of All(), caller keeps the result of All() and later passes it back as an argument} on one dst.Decorations; arguments are sub-slices of a shared arena with " +
 			"seeded spare capacity (also nil and empty variadics). A []string reference model is stepped in lock-step; the arena is snapshotted around every call (whole " +
 			"arg[:cap(arg)]); at the end the list is attached to a Start/End/named point of a parsed statement, printed, and the comment stream of the output is compared with " +
 			"All(). distinct_nontrivial = distinct (operation-kind sequence) hashes of length >= 3.",
 		Floor: 5000,
 		Run:   runC19,
 		Assumptions: []string{
+			"a slice returned by All() and kept by the caller is only ever changed by the caller's own writes: no later Append/Prepend/Replace/Clear writes into its elements (otherwise All, Clear, Append(x), Append(kept...) would not give x followed by the old contents, as it does for an ordered list of strings)",
 			"'never retain the caller's argument slice' is checked as: a later write by the caller through the argument slice (anywhere in arg[:cap(arg)]) does not change All()",
 			"a write by the caller through the slice returned by All() may or may not be visible afterwards (the statement does not say whether All is a view or a copy): the model follows what the implementation shows, and both outcomes are counted",
 		},
@@ -90,8 +91,26 @@ func c19History(c *fw.Ctx, id string, i int) {
 	fail := func(rule, detail string) {
 		c.Violate(rule, rule, fmt.Sprintf("history %s ops=%v: %s", id, kinds, detail), "")
 	}
+	// slices obtained from All() and kept by the caller: list operations never write into them
+	// (only the caller's own writes do), so a snapshot taken when the caller last touched them must
+	// still read the same after any later list operation
+	type heldT struct{ sl, snap []string }
+	var held []heldT
+	refreshHeld := func() {
+		for h := range held {
+			held[h].snap = append([]string(nil), held[h].sl...)
+		}
+	}
+	checkHeld := func(kind string) {
+		for h := range held {
+			if !sameList(held[h].sl, held[h].snap) {
+				fail("returned-slice-modified", fmt.Sprintf("%s changed a slice that All() had returned earlier: it read %v, now reads %v", kind, held[h].snap, held[h].sl))
+				held[h].snap = append([]string(nil), held[h].sl...)
+			}
+		}
+	}
 	for op := 0; op < nops; op++ {
-		k := r.Intn(10)
+		k := r.Intn(12)
 		var kind string
 		switch k {
 		case 0, 1, 2:
@@ -192,11 +211,47 @@ func c19History(c *fw.Ctx, id string, i int) {
 			if !sameList(arg, argCopy) {
 				fail("argument-modified", fmt.Sprintf("%s changed the caller's argument slice: before %v, after %v", kind, argCopy, arg))
 			}
+		case 10:
+			kind = "caller-keeps-All()"
+			if cur := d.All(); len(cur) > 0 && len(held) < 4 {
+				held = append(held, heldT{cur, append([]string(nil), cur...)})
+			}
+		case 11:
+			// a slice kept from an earlier All() comes back as an argument
+			if len(held) == 0 {
+				kind = "kept-arg-none"
+				break
+			}
+			arg := held[r.Intn(len(held))].sl
+			argCopy := append([]string(nil), arg...)
+			switch r.Intn(3) {
+			case 0:
+				kind = "Append(kept)"
+				d.Append(arg...)
+				model = append(append([]string(nil), model...), argCopy...)
+			case 1:
+				kind = "Prepend(kept)"
+				d.Prepend(arg...)
+				model = append(append([]string(nil), argCopy...), model...)
+			case 2:
+				kind = "Replace(kept)"
+				d.Replace(arg...)
+				model = append([]string(nil), argCopy...)
+			}
+			if !sameList(arg, argCopy) {
+				fail("argument-modified", fmt.Sprintf("%s changed the caller's argument slice: before %v, after %v", kind, argCopy, arg))
+			}
 		case 8:
 			kind = "Append-one"
 			v := fresh()
 			d.Append(v)
 			model = append(append([]string(nil), model...), v)
+		}
+		switch k {
+		case 5, 6, 7:
+			refreshHeld() // the caller's own writes may legitimately show through a kept slice
+		default:
+			checkHeld(kind)
 		}
 		kinds = append(kinds, kind)
 		c.Observe("op_kinds", kind)
